@@ -387,7 +387,7 @@ def fix_form(f):
 
 
 def model_obs(mo):
-    invs, results, done, raised, proxies, dead, net, opn = mo
+    invs, results, done, raised, proxies, dead, net, opn = mo[:8]
     o = {}
     o['invs'] = [[i[0], i[3], [canon_form(x) for x in i[4]],
                   None if i[5] == [] else [None if i[5][0] == [] else bytes(i[5][0][0]).decode('latin-1')]]
@@ -471,23 +471,48 @@ def convention(forms, sig_out):
 
 def judge(case, io):
     """'a call through a proxy runs that method on the exporting client with equal arguments and completes with a
-    value equal to what it returned, or with a RemoteError mirroring what it raised' - on a schedule that ran to
-    quiescence.  case['expect'] = [[client, deferred id, exporter, fid, [expected argument forms], caller | None,
-    outcome]]; outcome = ['value', expected completion form | None] | ['raise', class, dbusErrorName | None, text]
-    | ['noreply'] (the call was flagged expectReply=False: completes with None at once, the method still runs)."""
+    value equal to what it returned, or with a RemoteError mirroring what it raised' - on a schedule that ran until
+    nothing was left to deliver.  case['expect'] = [[client, deferred id | None, exporter, fid, [expected argument
+    forms], caller | None, outcome]]; outcome = ['value', expected completion form | None] | ['raise', class,
+    dbusErrorName | None, text].  Every judged call is LEGAL (an exported, implemented method of an attached
+    exporter, conforming arguments, made through a proxy that was declared explicitly with the exporter's
+    declaration or built by introspection with fresh names / replacement requested): nothing excuses a dropped
+    connection, a refusal by the proxy, a method that does not run or a Deferred that does not fire."""
     exp = case.get('expect')
     if not exp:
         return []
-    if io['net'] or io['open'] or io['dead'] or io.get('busdrop'):
-        return []            # not quiescent: no demand (liveness of the links is the scheduler's business)
+    if io['net'] or io['open']:
+        return []            # the schedule did not run to the end (the scheduler's business)
     bad = []
+    dropped = ''
+    if io['dead'] or io.get('busdrop'):
+        dropped = ' (an exception escaped dataReceived: clients %r, bus side of clients %r)' % (io['dead'], io.get('busdrop', []))
+    if io['raised']:
+        bad.append(('callRemote refused %d legal call(s) locally: %r' % (len(io['raised']), io['raised']),
+                    'e2e:legal-call-refused-by-proxy'))
     want_invs = sorted([repr([e[2], e[3], e[4], e[5]]) for e in exp])
     got_invs = sorted([repr([i[0], i[1], i[2], i[3]]) for i in io['invs'] if i[1] < 1000])
     if want_invs != got_invs:
-        bad.append(('the exported methods did not run exactly once each with the arguments passed: expected %s, ran %s'
-                    % (want_invs, got_invs), 'invocation:not-exactly-once-with-equal-arguments'))
+        ran = {}
+        for i in io['invs']:
+            ran[(i[0], i[1])] = ran.get((i[0], i[1]), 0) + 1
+        wanted = {}
+        for e in exp:
+            wanted[(e[2], e[3])] = wanted.get((e[2], e[3]), 0) + 1
+        if any(ran.get(k, 0) < n for k, n in wanted.items()):
+            bad.append(('an exported method that was called did not run%s: expected %s, ran %s' % (dropped, want_invs, got_invs),
+                        'e2e:method-never-ran'))
+        else:
+            bad.append(('the exported methods did not run exactly once each with the arguments passed: expected %s, ran %s'
+                        % (want_invs, got_invs), 'invocation:not-exactly-once-with-equal-arguments'))
     for c, cid, exporter, fid, args, caller, outcome in exp:
+        if cid is None:
+            continue             # refused by the proxy: reported above
         got = [d[2] for d in io['done'] if d[0] == c and d[1] == cid]
+        if len(got) == 0:
+            bad.append(('call %d of client %d never completed although nothing is left to deliver%s' % (cid, c, dropped),
+                        'e2e:call-never-completed'))
+            continue
         if len(got) != 1:
             bad.append(('call %d of client %d completed %d times' % (cid, c, len(got)), 'completion:not-exactly-once'))
             continue
@@ -551,6 +576,10 @@ def evaluate(ctx, cases, res):
             continue
         oi = impl_obs(io)
         om = model_obs(mo)
+        if len(mo) > 8 and mo[8] != 1:
+            res.disagree(c, 'every message in flight is encodable (hypothesis of the byte-level theorems)',
+                         'a message the model put in flight is not well-framed or does not parse back under '
+                         'Model/WireCodec.v', what='codec')
         ci, cm = canon_pair(oi, om)
         calls = sum(1 for a in c['sched'] if a[0] == 2)
         res.count(c, nontrivial=bool(io['invs']) or bool(io['done']))
@@ -613,13 +642,20 @@ class TypedGen(object):
         return [f for f, _ in out], [e for _, e in out]
 
 
-def gen_world(rng, tg, n_exporters, k):
-    """interfaces with typed methods, one class per exporter, every (interface, member) bound to its own function"""
+def gen_world(rng, tg, n_exporters, k, fixed=None):
+    """interfaces with typed methods, one class per exporter, every (interface, member) bound to its own function;
+    fixed = [(interface, [(member, in types, out types)])] instead of random declarations"""
     nif = rng.choice([1, 1, 2])
     names = rng.sample(IFACES, nif)
     ifaces = []
     sigs = {}          # (iface, member) -> (in types, out types)
-    for n in names:
+    for n, decls in (fixed or []):
+        ms = []
+        for m, tin, tout in decls:
+            sigs[(n, m)] = (tin, tout)
+            ms.append([m, ''.join(mc.show(t) for t in tin), ''.join(mc.show(t) for t in tout)])
+        ifaces.append([n, ms])
+    for n in ([] if fixed else names):
         ms = []
         for m in rng.sample(MEMBERS, rng.choice([1, 2, 3])):
             tin = tg.types(rng.choice([0, 1, 1, 2, 3]))
@@ -700,12 +736,12 @@ class Scenario(object):
     """a world, a prefix of application actions (each run to quiescence), and threads of application actions whose
     steps are interleaved with the deliveries"""
 
-    def __init__(self, rng, k, n_exporters=1, kind='?'):
+    def __init__(self, rng, k, n_exporters=1, kind='?', fixed=None):
         self.rng = rng
         self.k = k
         self.kind = kind
         self.tg = TypedGen(rng)
-        self.w = gen_world(rng, self.tg, n_exporters, k)
+        self.w = gen_world(rng, self.tg, n_exporters, k, fixed)
         self.names = []
         self.behs = {}
         self.finals = {}
@@ -760,8 +796,9 @@ class Scenario(object):
         self.proxy_count[c] += 1
         return [[1, c, self.bus_name_for(ec, wellknown), path, None, replace]]
 
-    def call(self, c, pidx, member=None, with_iface=None):
-        """a well-formed call of a declared method with conforming arguments: (action, expectation stub)"""
+    def call(self, c, pidx, member=None, with_iface=None, given=None):
+        """a well-formed call of a declared method with conforming arguments: (action, expectation stub);
+        given = (argument forms, their read-back forms) instead of random arguments"""
         rng = self.rng
         ec, path, order = self.proxy_info[(c, pidx)]
         cands = [(n, m) for (n, m) in self.w['fids'] if member is None or m == member]
@@ -771,10 +808,11 @@ class Scenario(object):
         if first != n or (with_iface if with_iface is not None else rng.random() < 0.3):
             kw_iface = n
         tin, tout = self.w['sigs'][(n, m)]
+        v = given
         for _ in range(20):
-            v = self.tg.values(tin)
             if v is not None:
                 break
+            v = self.tg.values(tin)
         forms, exps = v
         fid, caller = self.w['fids'][(n, m)]
         timeout = rng.choice([None, None, None, 5, 0])
@@ -820,8 +858,11 @@ def _run_schedule(scn, case, choose, rng, max_steps):
     def issue(a, stub):
         before = ex.next_id[a[1]] if a[0] == 2 else None
         serial = ex.net.message.DBusMessage._nextSerial
+        nraised = len(ex.raised)
         ex.do(a)
         sched.append(a)
+        if stub is not None and len(ex.raised) > nraised:
+            before = None            # callRemote raised: there is no Deferred
         if stub is not None:
             fin = scn.finals[stub['fid']]
             e = [stub['c'], before, stub['exporter'], stub['fid'], stub['args'], stub['caller'], None]
@@ -880,7 +921,7 @@ def _run_schedule(scn, case, choose, rng, max_steps):
             sched.append(a)
     case['sched'] = sched
     complete = all(p == len(th) for p, th in zip(pos, scn.threads)) and not ex.deliverable()
-    if complete and all(e[1] is not None and e[6][0] != 'deferred' for e in expect):
+    if complete and all(e[6][0] != 'deferred' for e in expect):
         case['expect'] = expect
     return case, branch
 
@@ -994,6 +1035,88 @@ def scenario_intro_race(rng, k=3):
     return scn
 
 
+# integers a variant can only carry under their own DBus type: outside the INT32 range
+BIG = [([9, 117, [0, 4000000000]], [0, 4000000000]),                  # UInt32
+       ([9, 117, [0, 4294967295]], [0, 4294967295]),
+       ([9, 120, [0, -2 ** 40]], [0, -2 ** 40]),                      # Int64
+       ([9, 120, [0, 2 ** 63 - 1]], [0, 2 ** 63 - 1]),
+       ([9, 116, [0, 2 ** 63 + 1]], [0, 2 ** 63 + 1]),                # UInt64
+       ([9, 116, [0, 2 ** 40]], [0, 2 ** 40])]
+
+
+def scenario_big_variants(rng):
+    """variant / a{sv} / av arguments and returns holding UInt32 / Int64 / UInt64 values outside the INT32 range,
+    through an explicit and through an introspected proxy"""
+    fixed = [('org.ex.V', [('One', ['v'], ['v']), ('Dict', [['a', ['{', 's', 'v']]], [['a', ['{', 's', 'v']]]),
+                           ('List', [['a', 'v'], 't'], ['v', 'x'])])]
+    scn = Scenario(rng, 3, 1, 'big-variants', fixed=fixed)
+    ec = scn.exporter()[0]
+    c1, c2 = [c for c in (1, 2, 3) if c != ec]
+    scn.prefix += scn.explicit_proxy(c1, wellknown=rng.random() < 0.5)
+    scn.prefix += scn.intro_proxy(c2, replace=rng.random() < 0.5)
+
+    def pick():
+        return rng.choice(BIG)
+
+    def dict_of(n):
+        items = [(b'k%d' % i, pick()) for i in range(n)]
+        return ([7, [[[3, k], f] for k, (f, e) in items]], [7, [[[3, k], e] for k, (f, e) in items]])
+
+    def list_of(n):
+        items = [pick() for _ in range(n)]
+        return ([5, [f for f, e in items]], [5, [e for f, e in items]])
+    # what the methods return (conforming, and only expressible with the wrapper types)
+    for (n, m), (fid, _) in scn.w['fids'].items():
+        if m == 'One':
+            f, e = pick()
+            scn.behs[fid], scn.finals[fid] = [0, f], ['value', e]
+        elif m == 'Dict':
+            f, e = dict_of(2)
+            scn.behs[fid], scn.finals[fid] = [0, f], ['value', e]
+        else:
+            f, e = pick()
+            scn.behs[fid], scn.finals[fid] = [0, [6, [f, [0, -2 ** 50]]]], ['value', [5, [e, [0, -2 ** 50]]]]
+    calls = []
+    for c, p in ((c1, 0), (c2, scn.proxy_count[c2] - 1)):
+        m = rng.choice(['One', 'Dict', 'List'])
+        if m == 'One':
+            f, e = pick()
+            given = ([f], [e])
+        elif m == 'Dict':
+            f, e = dict_of(rng.choice([1, 2]))
+            given = ([f], [e])
+        else:
+            f, e = list_of(rng.choice([1, 2, 3]))
+            given = ([f, [0, 2 ** 64 - 1]], [e, [0, 2 ** 64 - 1]])
+        calls.append([scn.call(c, p, member=m, given=given)])
+    scn.threads = calls
+    return scn
+
+
+def scenario_redeclared(rng):
+    """the calling process already knows the interface name - with ANOTHER definition (an older revision) - and asks
+    for introspection with replaceKnownInterfaces=True: the proxy must follow what the exporter publishes now"""
+    scn = Scenario(rng, 3, 1, 'redeclared')
+    ec, path, _ = scn.exporter()
+    c1 = [c for c in (1, 2, 3) if c != ec][0]
+    force_deferred(scn, 0)
+    # the stale revision, registered in the caller's process: every method takes one argument more, the last
+    # method is missing
+    for n, ms in scn.w['ifaces']:
+        stale = [[m[0], m[1] + 'i', m[2]] for m in ms[:-1]] or [['Gone', '', '']]
+        scn.prefix.append([0, c1, n, stale, False])
+        scn.decl_count += 1
+    how = rng.random()
+    if how < 0.5:
+        # a first proxy from the stale definition (no replacement), then the fresh one
+        scn.prefix += [[1, c1, ':1.%d' % ec, path, None, False]]
+        scn.proxy_count[c1] += 1
+    scn.prefix += scn.intro_proxy(c1, replace=True)
+    p = scn.proxy_count[c1] - 1
+    scn.threads = [[scn.call(c1, p)] for _ in range(rng.choice([1, 2]))]
+    return scn
+
+
 def scenario_random(rng):
     k = rng.choice([2, 3, 3, 4])
     nexp = 1 if k == 2 or rng.random() < 0.6 else 2
@@ -1040,7 +1163,9 @@ def directed(rng):
         if variant == 0:        # unknown method, wrong interface keyword
             acts = [[2, c1, 0, 'Nope', [], [True, True, None, None]], [2, c1, 0, m, good[4], [True, True, None, 'org.not.There']]]
         elif variant == 1:      # argument count
-            acts = [[2, c1, 0, m, good[4] + [[0, 1]], [True, True, None, None]], [2, c1, 0, m, good[4][:-1] if good[4] else [[0, 1]], [True, True, None, None]]]
+            # (the interface is named: without it another interface's member of the same name could take an int
+            # where it declares a double - a shape Model/Marshal.v leaves unmodelled)
+            acts = [[2, c1, 0, m, good[4] + [[0, 1]], [True, True, None, n]], [2, c1, 0, m, good[4][:-1] if good[4] else [[0, 1]], [True, True, None, n]]]
         elif variant == 2:      # ill-typed arguments: nothing is sent, the Deferred fails
             bad = [[10] for _ in good[4]] or [[0, 1]]
             acts = [[2, c1, 0, m, bad, [True, True, None, good[5][3]]]]
@@ -1121,6 +1246,10 @@ def gen_cases(ctx, res):
         complete &= exhaust('one caller, three calls in flight', scenario_one_caller(rng, 3), 3000)
         complete &= exhaust('introspection racing a call', scenario_intro_race(rng), 6000)
         complete &= exhaust('two callers, well-known name', scenario_two_callers(rng, wellknown=True), 400)
+    for _ in range(ctx.n(60, 600)):
+        cases.append(random_schedule(scenario_big_variants(rng), rng))
+    for _ in range(ctx.n(60, 600)):
+        cases.append(random_schedule(scenario_redeclared(rng), rng))
     res.extra['exhaustive_interleavings'] = ex_count
     res.extra['exhaustive_complete'] = bool(complete)
     for _ in range(ctx.n(6, 30)):
